@@ -310,9 +310,9 @@ def render_endit(P, fmt, kind, sep="", ident="ALLE"):
     rows = endit_rows(P, fmt, sep, ident)
     if kind == "csv":
         return "\n".join(["Plot_ID,Date,Nm03,Nm36,Nm69,M,W0_3,W3_6,W6_9,NM9-12,NM12-15,NM15-20,W9-12,W12-15,W15-20"] +
-                         [",".join(t) for t in rows] + ["end"]) + "\n"
+                         [",".join(t + [""] * (15 - len(t))) for t in rows]) + "\n"
     return "\n".join(["Plot_ID Date Nm03 Nm36 Nm69 M W0_3 W3_6 W6_9 NM9-12 NM12-15 NM15-20 W9-12 W12-15 W15-20"] +
-                     ["".join(x + " " for x in t) for t in rows] + ["end"]) + "\n"
+                     ["".join(x + " " for x in t) for t in rows]) + "\n"
 
 
 def render_soil(P, kind):
